@@ -34,7 +34,7 @@ def mk(prog):
 
 
 def hash_parts(cell):
-    h = cell.attrs.get('_hash')
+    h = cm.cached(None, cell, '_hash')
     if not (isinstance(h, Term) and h.op == 'sha256'):
         return None
     return cm.flatten_bytes(list(h.a))
@@ -121,7 +121,7 @@ def check(run):
             if nfail <= 3:
                 run.fail('D123', 'Cell.__init__', f'construction with b={b}, r={r} raises {c}', where)
             continue
-        hashes = [k.attrs['_hash'] for k in kids]
+        hashes = [cm.cached(it, k, '_hash') for k in kids]
         ok, why = stream_matches(hash_parts(c), expect_stream(b, depths), hashes)
         if ok:
             run.ok('D123', cons, 'stream == spec' if (b, r) in ((0, 0), (9, 2)) else '')
@@ -133,8 +133,8 @@ def check(run):
             n_after = len(bits.native)
             run.check(n_after == b, 'D2b', 'Cell.__init__' if n_after != b else f'bits-kept[b={b}]',
                       f'b={b}: own bits have {n_after} bits after construction', where)
-            hd = c.attrs.get('_hashes')
-            dp = c.attrs.get('_depths')
+            hd = cm.cached(it, c, '_hashes')
+            dp = cm.cached(it, c, '_depths')
             okd = isinstance(dp, ListV) and len(dp.items) == 1 and isinstance(dp.items[0], K) and dp.items[0].v == 0
             run.check(okd, 'D4', 'Cell.__init__' if not okd else f'depth-leaf[b={b}]', 'leaf depth 0', where)
     if nfail > 3:
@@ -162,7 +162,7 @@ def check(run):
         want_ok = d + 1 <= 1023
         good = (out == 'ok') == want_ok
         if good and out == 'ok':
-            dp = c.attrs['_depths'].items[-1]
+            dp = cm.cached(it, c, '_depths').items[-1]
             good = isinstance(dp, K) and dp.v == d + 1
         if good:
             if d % 16 == 0 or d > 1000:
@@ -180,9 +180,9 @@ def check(run):
                 out, c, it, kids, _ = construct(prog, 0, depths)
                 run.evaluations += 1
                 want = 1 + max(depths)
-                good = out == 'ok' and isinstance(c.attrs['_depths'].items[-1], K) and c.attrs['_depths'].items[-1].v == want
+                good = out == 'ok' and isinstance(cm.cached(it, c, '_depths').items[-1], K) and cm.cached(it, c, '_depths').items[-1].v == want
                 if good:
-                    hashes = [k.attrs['_hash'] for k in kids]
+                    hashes = [cm.cached(it, k, '_hash') for k in kids]
                     good, why = stream_matches(hash_parts(c), expect_stream(0, depths), hashes)
                 if not good:
                     bad += 1
@@ -200,7 +200,7 @@ def check(run):
         it = mk(prog)
         c = cm.new_cell(it, cm.tvm_bits(it, cm.data_bits(9)), [mk_child(it, 0, 1)])
         h2 = cm.call_method(it, c, 'calculate_representation_hash')
-        if repr(it.vkey(h2)) != repr(it.vkey(c.attrs['_hash'])):
+        if repr(it.vkey(h2)) != repr(it.vkey(cm.cached(it, c, '_hash'))):
             run.info('ordinary cell of level 1 (above a pruned sub-tree): calculate_representation_hash() is not the cached hash - it hashes the data where the cached top-level hash hashes the level-0 hash; '
                      'the property is about level-0 cells, where the two coincide (D5)')
     except (RaiseEx, Fail):
@@ -218,7 +218,7 @@ def check(run):
             if not same:
                 # compare structurally through the stream matcher
                 same, why = stream_matches(cm.flatten_bytes(list(h2.a)) if isinstance(h2, Term) else None,
-                                           expect_stream(b, depths), [k.attrs['_hash'] for k in kids])
+                                           expect_stream(b, depths), [cm.cached(it, k, '_hash') for k in kids])
             run.check(same, 'D5', 'Cell.calculate_representation_hash' if not same else cons,
                       'recomputed stream == cached stream' if same else 'recomputed representation differs from the hashed one',
                       prog.where(prog.method('Cell', 'calculate_representation_hash')))
@@ -236,7 +236,7 @@ def check(run):
         try:
             c = cm.new_cell(it, cm.tvm_bits(it, cm.data_bits(6)), kids)
             want = expect_stream(6, [3 if n_ != 'y' else 5 for n_ in shape.split(',')])
-            hashes = [k.attrs['_hash'] for k in kids]
+            hashes = [cm.cached(it, k, '_hash') for k in kids]
             ok1, why1 = stream_matches(hash_parts(c), want, hashes)
             h2 = cm.call_method(it, c, 'calculate_representation_hash')
             ok2, why2 = stream_matches(cm.flatten_bytes(list(h2.a)) if isinstance(h2, Term) and h2.op == 'sha256' else None, want, hashes)
@@ -253,15 +253,16 @@ def check(run):
     c1 = cm.forge_ordinary_child(it, 1)
     c2 = cm.forge_ordinary_child(it, 2)
     c3 = cm.leaf(it, 9, 'other')
-    c3.attrs['_hash'] = c1.attrs['_hash']
-    c3.attrs['_hashes'] = ListV([c1.attrs['_hash']])
+    c3.attrs['_hash'] = cm.cached(it, c1, '_hash')
+    c3.attrs['_hashes'] = ListV([cm.cached(it, c1, '_hash')])
     cm.reforge(it, c3)
+    cm.shadow_lookups(it, c3)
     weq = prog.where(prog.method('Cell', '__eq__'))
     r13 = it.cmp(ast.Eq(), c1, c3, None)
     run.check(isinstance(r13, K) and r13.v is True, 'D6', 'Cell.__eq__' if not (isinstance(r13, K) and r13.v is True) else 'eq-same-hash',
               f'cells with the same representation hash but different other fields compare {vrepr(r13)}', weq)
     r12 = it.cmp(ast.Eq(), c1, c2, None)
-    k1, k2 = sorted([repr(it.vkey(c1.attrs['_hash'])), repr(it.vkey(c2.attrs['_hash']))])
+    k1, k2 = sorted([repr(it.vkey(cm.cached(it, c1, '_hash'))), repr(it.vkey(cm.cached(it, c2, '_hash')))])
     good = isinstance(r12, Cond) and r12.key == ('eq', k1, k2) and r12.pol
     run.check(good, 'D6', 'Cell.__eq__' if not good else 'eq-depends-on-hash-only',
               f'equality of two cells with opaque hashes H1, H2 is decided by: {r12!r}', weq)
@@ -280,7 +281,7 @@ def check(run):
     # hash, different representation hashes - they must compare unequal and live under different dictionary keys
     it = mk(prog)
     x = cm.forge_ordinary_child(it, 7, depth=0)        # a level-0 cell whose representation hash is the opaque H7
-    hx = x.attrs.get('_hash')
+    hx = cm.cached(it, x, '_hash')
     pr_bits = BA([Seg(16, 'k', format(1, '08b') + format(1, '08b')), Seg(256, 'b', hx), Seg(16, 'k', format(0, '016b'))])
     pr = cm.new_cell(it, cm.tvm_bits(it, pr_bits), [], 1)
     above_x = cm.new_cell(it, cm.tvm_bits(it, cm.data_bits(5, 'up')), [x])
@@ -308,7 +309,7 @@ def check(run):
     la = cm.new_cell(it, cm.tvm_bits(it, BA([Seg(1, 'k', '1')])), [])
     lb = cm.new_cell(it, cm.tvm_bits(it, BA([Seg(8, 'k', '11000000')])), [])
     lc = cm.new_cell(it, cm.tvm_bits(it, BA([Seg(2, 'k', '11')])), [])
-    ha_, hb_, hc_ = (repr(it.vkey(x.attrs.get('_hash'))) for x in (la, lb, lc))
+    ha_, hb_, hc_ = (repr(it.vkey(cm.cached(it, x, '_hash'))) for x in (la, lb, lc))
     good = len({ha_, hb_, hc_}) == 3
     run.check(good, 'D6', 'Cell.__init__[cells built earlier in the process]' if not good else 'history: leaves with equal padded data bytes',
               f"leaves '1', '11000000', '11' built in turn: hash terms {'all different' if good else 'NOT all different: ' + ha_[:50] + ' / ' + hb_[:50] + ' / ' + hc_[:50]} (their data bytes are 0xC0, 0xC0, 0xE0; d2 = 1, 2, 1)", weq)
@@ -327,7 +328,7 @@ def check(run):
     after = cm.new_cell(it, cm.tvm_bits(it, BA([Seg(5, 'k', '10110')])), [])
     it2 = mk(prog)
     fresh = cm.new_cell(it2, cm.tvm_bits(it2, BA([Seg(5, 'k', '10110')])), [])
-    ta, tf = repr(it.vkey(after.attrs.get('_hash'))), repr(it2.vkey(fresh.attrs.get('_hash')))
+    ta, tf = repr(it.vkey(cm.cached(it, after, '_hash'))), repr(it2.vkey(cm.cached(it, fresh, '_hash')))
     good = refused and ta == tf
     run.check(good, 'D6', 'Cell.__init__[after a refused construction]' if not good else 'history: refused construction leaves nothing behind',
               f'a cell of depth 1024 is {"refused" if refused else "NOT refused"}; the leaf built next hashes {"as in a fresh process" if ta == tf else "differently: " + ta[:70] + " instead of " + tf[:50]}', weq)
@@ -338,11 +339,11 @@ def check(run):
     ca, cb = cm.forge_ordinary_child(it, 11, depth=0), cm.forge_ordinary_child(it, 12, depth=0)
 
     def pruned_of(c_):
-        bits_ = BA([Seg(16, 'k', format(1, '08b') + format(1, '08b')), Seg(256, 'b', c_.attrs['_hash']), Seg(16, 'k', format(0, '016b'))])
+        bits_ = BA([Seg(16, 'k', format(1, '08b') + format(1, '08b')), Seg(256, 'b', cm.cached(it, c_, '_hash')), Seg(16, 'k', format(0, '016b'))])
         return cm.new_cell(it, cm.tvm_bits(it, bits_), [], 1)
     x1 = cm.new_cell(it, cm.tvm_bits(it, cm.data_bits(9, 'two')), [pruned_of(ca), cb])
     x2 = cm.new_cell(it, cm.tvm_bits(it, cm.data_bits(9, 'two')), [ca, pruned_of(cb)])
-    t1, t2 = repr(it.vkey(x1.attrs.get('_hash'))), repr(it.vkey(x2.attrs.get('_hash')))
+    t1, t2 = repr(it.vkey(cm.cached(it, x1, '_hash'))), repr(it.vkey(cm.cached(it, x2, '_hash')))
     l01, l02 = cm.call_method(it, x1, 'get_hash', K(0)), cm.call_method(it, x2, 'get_hash', K(0))
     good = t1 != t2 and repr(it.vkey(l01)) == repr(it.vkey(l02))
     run.check(good, 'D6', 'Cell.__init__[another pruning of the same tree built earlier]' if not good else 'history: two prunings of one tree',
